@@ -25,7 +25,17 @@
  *           with the default target, retargeted with dispatch_set_target_queue and activated
  *           while clients already submit to them
  *         6 fan-in L1 (serial), L2 (concurrent) -> workloop
- *         7 concurrent L1, serial L2 -> concurrent M -> serial B (depth 3, fan-in 2) */
+ *         7 concurrent L1, serial L2 -> concurrent M -> serial B (depth 3, fan-in 2)
+ *         8 serial L -> workloop           9 concurrent L -> workloop
+ *        10 fan-in of three serial leaves with different QoS classes (utility / default / user-initiated:
+ *           three different buckets of the workloop) -> workloop
+ *        11 serial L -> serial M -> workloop
+ *        12 = 10 with the workloop created inactive (dispatch_workloop_create_inactive) and activated before use
+ * On a workloop the clients use dispatch_async and dispatch_async_and_wait (the dispatch_sync family is not
+ * permitted on a workloop itself, only on the queues targeting it).  The workloop is registered like the lanes: every
+ * access to its dq_state (projected with the numeric max_qos) and every access to its per-bucket lists
+ * dwl_heads[] / dwl_tails[] ("Bk" records: bucket index, field, operation) is recorded and validated against
+ * spec/WorkloopWordTrace.tla.  VERIF_SITES=1 prints each distinct site that touches the workloop once. */
 #include "internal.h"
 #include <pthread.h>
 #include <malloc.h>
@@ -144,7 +154,14 @@ static void *client(void *arg)
 			int q = (int)(vrt_rand() % (unsigned)g_nq);
 			int body = (vrt_rand() % 4 == 0) ? B_SPIN : B_NONE;
 			int kind;
-			if (!g_islane[q]) kind = K_ASYNC;          /* workloops do not support dispatch_sync */
+			if (!g_islane[q]) {
+				/* a workloop takes every queue API except the dispatch_sync family: dispatch_async_and_wait instead */
+				if (k < 55) kind = K_ASYNC;
+				else if (k < 75) kind = K_AAW;
+				else if (k < 85) kind = K_BAAW;
+				else if (k < 93 && g_pp) { kind = K_ASYNC; body = B_CHILD; }
+				else kind = K_ASYNC;
+			}
 			else if (k < 30) kind = K_ASYNC;
 			else if (k < 38) kind = K_BASYNC;
 			else if (k < 60) kind = K_SYNC;
@@ -176,6 +193,7 @@ static int ev_id(const volatile void *a, int create)
 	return g_nev++;
 }
 
+static int g_numqos;   /* project max_qos as its number (the workloop's word) instead of the one-bit abstraction of the lanes */
 static void pabs(FILE *f, const char *k, uint64_t s, int W)
 {
 	int64_t wb = (int64_t)((s & DISPATCH_QUEUE_WIDTH_MASK) >> DISPATCH_QUEUE_WIDTH_SHIFT);
@@ -196,9 +214,22 @@ static void pabs(FILE *f, const char *k, uint64_t s, int W)
 			(s & DISPATCH_QUEUE_NEEDS_ACTIVATION) ? "true" : "false", _dq_state_is_in_barrier(s) ? "true" : "false",
 			_dq_state_has_pending_barrier(s) ? "true" : "false", used, _dq_state_is_dirty(s) ? "true" : "false",
 			_dq_state_is_enqueued_on_target(s) ? "true" : "false", _dq_state_received_override(s) ? "true" : "false",
-			_dq_state_max_qos(s) ? 1 : 0, owner);
+			g_numqos ? (int)_dq_state_max_qos(s) : (_dq_state_max_qos(s) ? 1 : 0), owner);
 	fprintf(f, ",\"base_%s\":%s", k, base ? "true" : "false");
 	if (odd) fprintf(f, ",\"odd_%s\":true", k);
+}
+
+/* VERIF_SITES=1: print every distinct site (expression, function, operation) that touches the workloop, once */
+static void show_site(const vrt_rec_t *r)
+{
+	static struct dispatch_verif_site_s *seen[512];
+	static int nseen, on = -1;
+	if (on < 0) on = getenv("VERIF_SITES") != NULL;
+	if (!on) return;
+	for (int i = 0; i < nseen; i++) if (seen[i] == r->site) return;
+	if (nseen < 512) seen[nseen++] = r->site;
+	fprintf(stderr, "SITE cls=%d off=%ld size=%u %s | %s | %s | %s | line %d\n", r->cls, r->off, r->size, r->site->dvs_expr,
+			r->site->dvs_func, r->site->dvs_op, r->site->dvs_mo, r->site->dvs_line);
 }
 
 static void proj(FILE *f, const vrt_rec_t *r)
@@ -230,6 +261,19 @@ static void proj(FILE *f, const vrt_rec_t *r)
 			break;
 		}
 		if (r->obj < 0 || r->obj >= MAXQ) break;
+		if (!g_lanefix[r->obj]) show_site(r);
+		if (r->cls == 2 && !g_lanefix[r->obj]) {
+			/* per-bucket MPSC lists of the workloop: dwl_heads[b] / dwl_tails[b] (b = DISPATCH_QOS_BUCKET(qos) = qos - 1) */
+			long oh = (long)offsetof(struct dispatch_workloop_s, dwl_heads), ot = (long)offsetof(struct dispatch_workloop_s, dwl_tails);
+			long sz = (long)(sizeof(void *) * DISPATCH_QOS_NBUCKETS);
+			const char *fld = NULL; long b = -1;
+			if (r->off >= oh && r->off < oh + sz) { fld = "head"; b = (r->off - oh) / (long)sizeof(void *); }
+			else if (r->off >= ot && r->off < ot + sz) { fld = "tail"; b = (r->off - ot) / (long)sizeof(void *); }
+			if (!fld || !strcmp(r->site->dvs_op, "load")) break;     /* do_next of the workloop object itself; scans */
+			fprintf(f, "{\"e\":\"Bk\",\"q\":%d,\"t\":%d,\"f\":\"%s\",\"op\":\"%s\",\"fld\":\"%s\",\"b\":%ld,\"ok\":%d,\"oldnull\":%s,\"newnull\":%s}\n",
+					r->obj, r->tid, r->site->dvs_func, r->site->dvs_op, fld, b, r->ok, r->oldv == 0 ? "true" : "false", r->newv == 0 ? "true" : "false");
+			break;
+		}
 		if (r->cls == 2) {
 			/* item list of queue q: who made it non-empty (exchange of dq_items_tail) and when it became empty again */
 			if (strstr(r->site->dvs_expr, "tail") && g_lanefix[r->obj]) {
@@ -249,7 +293,9 @@ static void proj(FILE *f, const vrt_rec_t *r)
 		}
 		fprintf(f, "{\"e\":\"St\",\"q\":%d,\"t\":%d,\"f\":\"%s\",\"op\":\"%s\",\"mo\":\"%s\",\"ok\":%d,\"line\":%d,", r->obj, r->tid,
 				r->site->dvs_func, r->site->dvs_op, r->site->dvs_mo, r->ok, r->site->dvs_line);
+		g_numqos = !g_lanefix[r->obj];
 		pabs(f, "old", r->oldv, g_wfix[r->obj]); fputc(',', f); pabs(f, "new", r->newv, g_wfix[r->obj]);
+		g_numqos = 0;
 		fprintf(f, "}\n");
 		break;
 	default: break;
@@ -305,9 +351,10 @@ static void on_segv(int sig, siginfo_t *si, void *uc)
 }
 static void flush_sig(void *c) { item_fn(c); dispatch_semaphore_signal(g_flush_sem); }
 
-static dispatch_queue_t mkq(const char *label, int width, int inactive, dispatch_queue_t tq)
+static dispatch_queue_t mkq2(const char *label, int width, int inactive, dispatch_queue_t tq, unsigned qc)
 {
 	dispatch_queue_attr_t attr = width == 1 ? DISPATCH_QUEUE_SERIAL : DISPATCH_QUEUE_CONCURRENT;
+	if (qc) attr = dispatch_queue_attr_make_with_qos_class(attr, (dispatch_qos_class_t)qc, 0);
 	if (inactive) attr = dispatch_queue_attr_make_initially_inactive(attr);
 	dispatch_queue_t q = tq && !inactive ? dispatch_queue_create_with_target(label, attr, tq) : dispatch_queue_create(label, attr);
 	if (width > 1 && !inactive) {
@@ -316,6 +363,11 @@ static dispatch_queue_t mkq(const char *label, int width, int inactive, dispatch
 		dispatch_barrier_sync_f(q, NULL, nop);
 	}
 	return q;
+}
+
+static dispatch_queue_t mkq(const char *label, int width, int inactive, dispatch_queue_t tq)
+{
+	return mkq2(label, width, inactive, tq, 0);
 }
 
 static void add(dispatch_queue_t q, int tgt, int islane, int inact)
@@ -330,11 +382,21 @@ static void build(int shape, int cw)
 {
 	g_nq = 0;
 	dispatch_queue_t B;
-	if (shape == 6) {
-		B = (dispatch_queue_t)dispatch_workloop_create("verif.wl");
-		add(B, -1, 0, 0);
-		add(mkq("verif.L1", 1, 0, B), 0, 1, 0);
-		add(mkq("verif.L2", cw, 0, B), 0, 1, 0);
+	if (shape == 6 || (shape >= 8 && shape <= 12)) {
+		int inact = shape == 12;
+		B = inact ? (dispatch_queue_t)dispatch_workloop_create_inactive("verif.wl") : (dispatch_queue_t)dispatch_workloop_create("verif.wl");
+		add(B, -1, 0, inact);
+		switch (shape) {
+		case 6: add(mkq("verif.L1", 1, 0, B), 0, 1, 0); add(mkq("verif.L2", cw, 0, B), 0, 1, 0); break;
+		case 8: add(mkq("verif.L", 1, 0, B), 0, 1, 0); break;
+		case 9: add(mkq("verif.L", cw, 0, B), 0, 1, 0); break;
+		case 10: case 12:
+			add(mkq2("verif.Lut", 1, 0, B, QOS_CLASS_UTILITY), 0, 1, 0);
+			add(mkq("verif.Ldef", 1, 0, B), 0, 1, 0);
+			add(mkq2("verif.Lin", 1, 0, B, QOS_CLASS_USER_INITIATED), 0, 1, 0);
+			break;
+		case 11: add(mkq("verif.M", 1, 0, B), 0, 1, 0); add(mkq("verif.L", 1, 0, g_q[1]), 1, 1, 0); break;
+		}
 		return;
 	}
 	B = mkq("verif.B", 1, 0, NULL);
@@ -407,6 +469,14 @@ int main(int argc, char **argv)
 		g_chain = 0;
 		vrt_pause(0);
 		for (int k = 0; k < g_nq; k++) vrt_mark("Reset", k, g_islane[k] ? g_w[k] : 0, g_inact[k] | ((g_tgt[k] + 1) << 1));
+		if (!g_islane[0] && g_inact[0]) {
+			/* a workloop created inactive: submitting to (or through) it before activation is undefined, so it is
+			 * activated (recorded) before the clients are released; activating an active object has no effect */
+			g_act_seq[0] = vrt_api("ActCall", g_obj[0], -1, -1, 0);
+			dispatch_activate(g_q[0]);
+			if (vrt_rand() % 2) dispatch_activate(g_q[0]);
+			vrt_api("ActRet", g_obj[0], -1, -1, 0);
+		}
 		pthread_barrier_wait(&g_bar);
 		if (g_shape == 5) {
 			/* retarget the inactive leaves while clients already submit to them, then activate */
